@@ -122,6 +122,10 @@ class Monitor:
 
     def measure(self, name: str, value) -> None:
         v = float(value)
+        if v != v or v in (float("inf"), float("-inf")):
+            # non-finite residuals are counted, not stored (they would break statistics)
+            self.counters[f"nonfinite_measure:{name}"] += 1
+            return
         lst = self.measures[name]
         if len(lst) < self.MAX_MEASURES:
             lst.append(v)
